@@ -380,6 +380,19 @@ def normalise(tree: ast.AST) -> None:
                 continue
             out = []
             for st in body:
+                # *rest, last = <expr>   ->   rest = list(<expr>)[:-1]; last = list(<expr>)[-1]
+                if (isinstance(st, ast.Assign) and len(st.targets) == 1 and isinstance(st.targets[0], ast.Tuple) and len(st.targets[0].elts) == 2 and isinstance(st.targets[0].elts[1], ast.Name)
+                        and isinstance(st.targets[0].elts[0], ast.Starred) and isinstance(st.targets[0].elts[0].value, ast.Name) and not isinstance(st.value, (ast.Tuple, ast.List))):
+                    import copy as _copy
+                    lst = lambda: ast.Call(func=ast.Name('list', ast.Load()), args=[_copy.deepcopy(st.value)], keywords=[])
+                    a = ast.Assign(targets=[ast.Name(st.targets[0].elts[0].value.id, ast.Store())], value=ast.Subscript(value=lst(), slice=ast.Slice(lower=None, upper=ast.UnaryOp(ast.USub(), ast.Constant(1)), step=None), ctx=ast.Load()))
+                    b = ast.Assign(targets=[ast.Name(st.targets[0].elts[1].id, ast.Store())], value=ast.Subscript(value=lst(), slice=ast.UnaryOp(ast.USub(), ast.Constant(1)), ctx=ast.Load()))
+                    for x in (a, b):
+                        ast.copy_location(x, st)
+                        ast.fix_missing_locations(x)
+                    # a throw-away rest (`*_`) is not bound at all
+                    out += ([b] if st.targets[0].elts[0].value.id == '_' else [a, b])
+                    continue
                 if (isinstance(st, ast.Assign) and len(st.targets) == 1 and isinstance(st.targets[0], ast.Tuple) and len(st.targets[0].elts) == 2 and isinstance(st.targets[0].elts[0], ast.Name)
                         and isinstance(st.targets[0].elts[1], ast.Starred) and isinstance(st.targets[0].elts[1].value, ast.Name) and not isinstance(st.value, (ast.Tuple, ast.List))):
                     import copy as _copy
@@ -825,6 +838,9 @@ class Repo:
     def func(self, modname: str, qualname: str) -> Func:
         m = self.mod(modname)
         f = m.funcs.get(qualname)
+        if f is None and '.' not in qualname and qualname in m.imports:
+            # the function was moved to another module of the package and is imported back under its name: it is that function
+            f = self.find_func(m.imports[qualname])
         if f is None:
             raise AnalysisError(f'anchor function {modname}.{qualname} not found')
         return f
